@@ -201,6 +201,12 @@ func (e *Engine) InitGlobals() {
 	e.initMode = false
 	st = res[0].st
 	st.allocLog = nil
+	// everything allocated by the init functions is package-level state too
+	for _, o := range st.heap.objs {
+		if o != nil && !strings.HasPrefix(o.tag, "global:") {
+			o.tag = "global:init-data(" + o.tag + ")"
+		}
+	}
 	e.base = st
 	e.stats = Stats{}
 	e.entered = map[*ssa.Function]int{}
@@ -1123,7 +1129,14 @@ func (e *Engine) noteGlobal(c *ctx, obj int32, store bool) {
 	o := c.st.heap.objs[obj]
 	if o != nil && strings.HasPrefix(o.tag, "global:") {
 		if store {
-			e.gstores[o.tag[7:]+" in "+c.fi.fn.Name()] = true
+			key := o.tag[7:] + " in " + c.fi.fn.Name()
+			if !e.gstores[key] {
+				// isolation (C04): a store to a package-level variable outside
+				// init is an obligation of its own (confirmed natively by
+				// comparing a digest of all package-level variables)
+				e.fail(c, "assert", "isolation:package-state-modified", nil, nil, "store to "+key)
+			}
+			e.gstores[key] = true
 		} else {
 			e.loads[o.tag[7:]] = true
 		}
